@@ -11,18 +11,21 @@ import (
 
 // R-ASSERT: every single-value type assertion x.(T) in the given functions must be justified, because a failing one
 // panics. Discharge methods (DESIGN §3.1):
-//   D2  dynamic-type provenance of x is a subset of {T} (or all implement interface T) and nil cannot flow
-//   D3  validator summary: dominated by f(x)==nil where every accepting return of f is dominated by a successful x.(T)
-//   D5  generic idiom: any(v).(K) under a type-switch case that fixes the type parameter K
-//   D6  TypeID gate: dominated by recv.TypeID()==K where every repo type reporting K implements T
-//   D7  meta-root: result of Unserialize on a package-level scope whose root object is struct-mapped to T
+//
+//	D2  dynamic-type provenance of x is a subset of {T} (or all implement interface T) and nil cannot flow
+//	D3  validator summary: dominated by f(x)==nil where every accepting return of f is dominated by a successful x.(T)
+//	D5  generic idiom: any(v).(K) under a type-switch case that fixes the type parameter K
+//	D6  TypeID gate: dominated by recv.TypeID()==K where every repo type reporting K implements T
+//	D7  meta-root: result of Unserialize on a package-level scope whose root object is struct-mapped to T
+//
 // Structural exception classes (relations between a run-time type and a construction-time invariant):
-//   E-TYPEPARAM  the asserted type is a bare type parameter (or slice/map of type parameters) of the enclosing
-//                generic declaration: typed wrappers and user callbacks (A4); NewTypedScopeSchema's reflect.Type
-//                comparison is re-verified
-//   E-DUCK       operand is .Interface() of a reflect.Value obtained via MethodByName(...).Call / FieldByName /
-//                MapIndex inside a ValidateCompatibility implementation
-//   E-WORKMAP    assertion to map[string]any of an element of the working map in applySubObjectDefaultValues
+//
+//	E-TYPEPARAM  the asserted type is a bare type parameter (or slice/map of type parameters) of the enclosing
+//	             generic declaration: typed wrappers and user callbacks (A4); NewTypedScopeSchema's reflect.Type
+//	             comparison is re-verified
+//	E-DUCK       operand is .Interface() of a reflect.Value obtained via MethodByName(...).Call / FieldByName /
+//	             MapIndex inside a ValidateCompatibility implementation
+//	E-WORKMAP    assertion to map[string]any of an element of the working map in applySubObjectDefaultValues
 func (c *Ctx) ruleAssert(rule string, fns map[*ssa.Function]bool) {
 	dt := core.NewDynTypes(c.M)
 	for _, fn := range c.M.SortedFuncs(fns) {
